@@ -204,7 +204,7 @@ def gen(rng, tier):
     n = 30 if tier == "quick" else 300
     # (A) validation rules: the model's verdict and object bookkeeping against the library's
     for k in range(n):
-        kind = ["analysis", "abf", "moving", "meta"][k % 4]
+        kind = ["analysis", "abf", "moving", "meta", "abfhist"][k % 5]
         L = ["m.new %d" % NATOMS, "M.noclock", cfg(REF)]
         meta = {"kind": kind}
         if kind == "analysis":
@@ -226,6 +226,12 @@ def gen(rng, tier):
             t += "}\n"
             L.append("v.cfg abf %d %d 1 %d %s" % (full, mn, mf, esc(t)))
             meta.update(full=full, mn=mn, mf=mf)
+        elif kind == "abfhist":
+            # historyFreq against outputFreq, a zero on either side included
+            hf, of_ = rng.choice([0, 2, 3, 4, 5, 6, 9]), rng.choice([0, 0, 1, 2, 3, 4])
+            t = "abf {\n name vb\n colvars r\n fullSamples 2\n outputFreq %d\n historyFreq %d\n}\n" % (of_, hf)
+            L.append("v.cfg abfhist %d %d %s" % (hf, of_, esc(t)))
+            meta.update(hf=hf, of_=of_)
         elif kind == "moving":
             ch, ns = rng.randint(0, 1), rng.randint(0, 4)
             t = "harmonic {\n name vb\n colvars r\n centers 0.5\n forceConstant 2.0\n"
